@@ -150,7 +150,11 @@ def run(ctx):
     from ..statecache import instance_memo_rule as _memo, positive_example as _memo_pos
     _memo(ctx, "R16.8", [p.get_class("wavespectra.spectrum.FrequencySpectrum"), p.get_class("wavespectra.spectrum.FrequencyDirectionSpectrum")], "spectrum classes")
     _memo_pos(ctx, "R16.8")
-    ctx.require_count("R16.8", 2)
+    # ... and none at module level in the generator (a result kept across calls must be keyed on every argument it depends on)
+    from ..statecache import module_memo_rule as _mmemo, positive_module_example as _mmemo_pos
+    _mmemo(ctx, "R16.8", [p.modules["wavespectra.timeseries"]], "time-series generator")
+    _mmemo_pos(ctx, "R16.8")
+    ctx.require_count("R16.8", 4)
     ctx.require_count("R16.1", 6)
     ctx.require_count("R16.2", 10)
     ctx.require_count("R16.3", 12)
